@@ -22,7 +22,7 @@ func TestVerif(t *testing.T) {
 	driver.Main(t, driver.Harness{
 		ID:    "C08",
 		Level: "model_checking",
-		Rule: "every history up to the depth bound over {Push, Tag (blobs too, annotated descriptors, several tags per manifest, re-tag), Untag, Delete, GC, SaveIndex} on a universe of 2 blobs + 2 manifests + a sha512-addressed blob and 3 reference names, " +
+		Rule: "every history up to depth 4 (thorough 5) for the default configuration and 3 (4) for the other three, over {Push, Tag (blobs too, annotated descriptors, several tags per manifest, re-tag), Untag, Delete, GC, SaveIndex} on a universe of 2 blobs + 2 manifests + a sha512-addressed blob and 3 reference names, " +
 			"for AutoSaveIndex on | off (+SaveIndex before looking) x AutoGC on | off, map-order deviations O<=1 at the index save/GC ranges. After every step: raw-directory validator written from image-layout.md, " +
 			"and the directory is reopened three ways (read-write, fs.FS, tar) and its full observation (tags, tag->descriptor up to the ref-name annotation, Resolve-by-digest, Exists, Fetch, Predecessors) is compared with the live store's. " +
 			"non-trivial = distinct history containing a Delete, GC, Untag or re-tag",
@@ -76,8 +76,14 @@ func jobs(tier string) []driver.Job {
 	if th {
 		depth = 5
 	}
+	maxDepth := depth
 	for _, autosave := range []bool{true, false} {
 		for _, autogc := range []bool{true, false} {
+			// the default configuration gets the full depth, the other three one step less
+			depth := maxDepth
+			if !(autosave && autogc) {
+				depth = maxDepth - 1
+			}
 			nsh := 32
 			if th {
 				nsh = 64
